@@ -66,6 +66,12 @@ fn run_history(
     ctl::with_ctl(|c| {
         c.tracing = tracing;
         c.plan = plan.to_vec();
+        // a background cleanup thread that lags behind the logging thread (it is held back a
+        // little where it takes a request): what it finds then is no longer what the rotation
+        // that asked for the cleanup had left
+        if cfg.clean_bg && !plan.is_empty() {
+            c.delays.push(("cleanup_act".into(), "cleanup".into(), 300));
+        }
     });
     let _ = flw::take_error_channel();
     let mut driver = Driver::build(cfg)?;
@@ -293,6 +299,8 @@ fn gen(rng: &mut Rng, dir: &std::path::Path, thorough: bool) -> (FlwCfg, Vec<Op>
 
 pub fn run_case(ctx: &mut CaseCtx) -> CaseResult {
     match ctx.case % 10 {
+        8 if ctx.case % 40 == 28 => return failed_open_then_background_cleanup_case(ctx),
+        8 if ctx.case % 20 == 18 => return name_too_long_case(ctx),
         8 => return blocked_target_case(ctx),
         9 => return rlimit_case(ctx),
         _ => {}
@@ -548,6 +556,14 @@ pub fn run_case(ctx: &mut CaseCtx) -> CaseResult {
             unexplained
         };
         if !unexplained.is_empty() && res.verdict == Verdict::Held {
+            // (one class has a signature of its own: a rotation whose rename succeeded and whose
+            // open failed leaves the writer on the renamed file, which a background cleanup takes
+            // for a rotated file)
+            let facts = if cfg.clean_bg && name == "open" && !cfg.names.naming.is_direct() {
+                format!("{facts}/current-infix-naming+background-cleanup")
+            } else {
+                facts.clone()
+            };
             res.violate(
                 "record-lost",
                 format!("C19/record-lost/{facts}"),
@@ -716,6 +732,260 @@ fn blocked_target_case(ctx: &mut CaseCtx) -> CaseResult {
     }
     res.count("real_fault_runs", 1);
     res.nontrivial = true;
+    res
+}
+
+// ------------------------------------------------------------------------------------------
+// A rotation whose rename succeeded and whose open failed leaves the writer on the file that now
+// carries a rotated name. A background cleanup that takes up a request afterwards treats that
+// file as a rotated one. The order is fixed with the schedule controller: the cleanup thread is
+// parked where it takes the request of the previous rotation until the failed rotation is over.
+
+fn failed_open_then_background_cleanup_case(ctx: &mut CaseCtx) -> CaseResult {
+    let rng = &mut ctx.rng;
+    let mut res = CaseResult::new("failed-open|then-background-cleanup");
+    let dir = ctx.dir.join("logs");
+    let naming = match rng.below(3) {
+        0 => NamingK::Numbers,
+        1 => NamingK::Timestamps,
+        _ => NamingK::Custom { fmt: "%Y-%m-%d".into(), current: Some("rCURRENT".into()) },
+    };
+    let cfg = FlwCfg {
+        names: NameCfg {
+            dir: dir.clone(),
+            basename: "app".into(),
+            discr: None,
+            start_ts: None,
+            suffix: Some("log".into()),
+            naming,
+        },
+        use_ts: false,
+        // rotations only where the history asks for them
+        crit: Some(Crit::Size(1_000_000)),
+        clean: if rng.chance(1, 2) { Clean::Gz(3) } else { Clean::Logs(0) },
+        clean_bg: true,
+        wmode: WMode::Direct,
+        crlf: false,
+        append: false,
+        symlink: None,
+        use_utc: false,
+        max_level: log::LevelFilter::Trace,
+        fmt: FmtK::Raw,
+        l2: rng.chance(1, 2),
+    };
+    const CLEANER: &str = "flexi_logger-fs-cleanup";
+    flw::install_virtual(flw::base_time_ns(rng));
+    let _ = flw::take_error_channel();
+    let mut driver = match Driver::build(&cfg) {
+        Ok(d) => d,
+        Err(e) => {
+            res.violate("build-failed", "C19/build-failed", e);
+            flw::uninstall_virtual();
+            return res;
+        }
+    };
+    let w = |d: &Driver, seq: u64| d.write(log::Level::Info, &flw::msg_id(0, 0, seq, 20));
+    w(&driver, 0);
+    w(&driver, 1);
+    // from now on the cleanup thread parks where it takes up a request
+    ctl::sched_control(&[CLEANER], &["cleanup_act"]);
+    let _ = driver.rotate(); // rotation 1: fine; its cleanup request waits
+    w(&driver, 2);
+    let parked = ctl::sched_wait(CLEANER, std::time::Duration::from_secs(10));
+    // rotation 2: the rename works, the open fails
+    let opens_so_far = ctl::with_ctl(|c| c.counts.get("open").copied().unwrap_or(0));
+    ctl::with_ctl(|c| {
+        c.plan = vec![PlanItem {
+            name: "open".into(),
+            from: opens_so_far + 1,
+            to: opens_so_far + 1,
+            action: Action::Fail(ErrorKind::PermissionDenied),
+        }];
+    });
+    let r2 = driver.rotate();
+    ctl::with_ctl(|c| c.plan.clear());
+    // (an explicitly triggered rotation hands its error to the caller)
+    let reported = r2.is_err() || flw::take_error_channel().iter().any(|l| l.contains("ERRCODE"));
+    w(&driver, 3);
+    // now the cleanup of rotation 1 runs
+    ctl::sched_release(CLEANER);
+    // it has nothing more to park at; give it the time to finish its work list
+    let deadline = std::time::Instant::now() + std::time::Duration::from_secs(5);
+    let work_done = |names: &NameCfg| -> bool {
+        family::observe(names)
+            .map(|o| o.family.iter().all(|f| f.entry.gz || f.entry.kind == family::Kind::Current) || o.family.len() <= 1)
+            .unwrap_or(false)
+    };
+    while std::time::Instant::now() < deadline && !work_done(&cfg.names) {
+        std::thread::sleep(std::time::Duration::from_millis(2));
+    }
+    std::thread::sleep(std::time::Duration::from_millis(5));
+    w(&driver, 4);
+    w(&driver, 5);
+    ctl::sched_reset();
+    driver.shutdown();
+    flw::uninstall_virtual();
+    res.absorb_panics("C19", "failed open, then the background cleanup");
+    res.count("controlled_failed_open_histories", 1);
+    if !matches!(parked, ctl::Parked::At(_)) {
+        res.inconclusive("the cleanup thread did not take up the request of the first rotation");
+        return res;
+    }
+    if res.verdict == Verdict::Held {
+        let mut ids: Vec<u64> = Vec::new();
+        let mut names = Vec::new();
+        if let Ok(obs) = family::observe(&cfg.names) {
+            names = obs.names();
+            for f in &obs.family {
+                if let Ok(c) = &f.content {
+                    for line in String::from_utf8_lossy(c).lines() {
+                        if let Some((0, 0, s)) = flw::parse_msg_id(line) {
+                            ids.push(s);
+                        }
+                    }
+                }
+            }
+        }
+        // Clean::Logs(0) may remove rotated files as a whole; the records written after the failed
+        // rotation belong to the file that is being written and must be there in any case
+        let missing: Vec<u64> = [3u64, 4, 5].iter().copied().filter(|i| !ids.contains(i)).collect();
+        if !missing.is_empty() {
+            res.violate(
+                "record-lost",
+                format!(
+                    "C19/record-lost/failed-open-then-background-cleanup/naming={}/{}",
+                    cfg.names.naming.label(),
+                    cfg.clean.label()
+                ),
+                format!(
+                    "rotation 2 renamed the current file and could not open the new one (reported: {reported}); the writer went on in the renamed file; the background cleanup of rotation 1, running afterwards, took that file for a rotated one: records {missing:?}, all written without error after the failed rotation, are gone (ids found {ids:?} in {names:?})"
+                ),
+            );
+        } else if !reported {
+            res.violate(
+                "failure-not-reported",
+                "C19/failure-not-reported/failed-open-then-background-cleanup",
+                "the failed open during the rotation was not reported",
+            );
+        }
+    }
+    res.nontrivial = true;
+    res.sample = Some(json!({"config": cfg.to_json()}));
+    res
+}
+
+// ------------------------------------------------------------------------------------------
+// real fault: the name of the rotated file is longer than NAME_MAX (the name of the current file
+// still fits), so every rename of the current file really fails inside the system call - behind
+// the hook point, where injected faults never get
+
+fn name_too_long_case(ctx: &mut CaseCtx) -> CaseResult {
+    let rng = &mut ctx.rng;
+    let mut res = CaseResult::new("real-fault|rotated-name-too-long");
+    let dir = ctx.dir.join("logs");
+    let naming = match rng.below(3) {
+        0 => NamingK::Timestamps,
+        1 => NamingK::Custom { fmt: "ts%Y-%m-%d_%H-%M-%S".into(), current: Some("CUR".into()) },
+        _ => NamingK::Numbers,
+    };
+    // current: <base>_rCURRENT.log (or _CUR.log); rotated names are 3..18 bytes longer
+    let (cur_len, rot_len) = match &naming {
+        NamingK::Timestamps => (9, 21),
+        NamingK::Custom { .. } => (4, 22),
+        _ => (9, 7),
+    };
+    if rot_len <= cur_len {
+        // numbered names are shorter than the current one: use the blocked-directory fault there
+        return blocked_target_case(ctx);
+    }
+    // 255 = NAME_MAX; ".log" = 4
+    let base_len = 255 - 4 - cur_len - rng.usize(rot_len - cur_len);
+    let names = NameCfg {
+        dir: dir.clone(),
+        basename: "n".repeat(base_len),
+        discr: None,
+        start_ts: None,
+        suffix: Some("log".into()),
+        naming,
+    };
+    let cfg = FlwCfg {
+        names,
+        use_ts: false,
+        crit: Some(Crit::Size(60)),
+        clean: Clean::Never,
+        clean_bg: false,
+        wmode: if rng.chance(1, 3) { WMode::BufDont(64) } else { WMode::Direct },
+        crlf: false,
+        append: rng.chance(1, 3),
+        symlink: None,
+        use_utc: false,
+        max_level: log::LevelFilter::Trace,
+        fmt: FmtK::Raw,
+        l2: rng.chance(1, 2),
+    };
+    let _ = std::fs::create_dir_all(&dir);
+    flw::install_virtual(flw::base_time_ns(rng));
+    let _ = flw::take_error_channel();
+    let mut driver = match Driver::build(&cfg) {
+        Ok(d) => d,
+        Err(e) => {
+            // a name that does not fit at all is a configuration problem, not our subject
+            flw::uninstall_virtual();
+            res.inconclusive(format!("the logger cannot be built with this name: {e}"));
+            return res;
+        }
+    };
+    let n = 12u64;
+    for seq in 0..n {
+        driver.write(log::Level::Info, &flw::msg_id(0, 0, seq, 30));
+        if seq % 4 == 3 {
+            ctl::clock_advance(1_000_000_000);
+        }
+    }
+    let reports = flw::take_error_channel().iter().filter(|l| l.contains("ERRCODE")).count();
+    driver.shutdown();
+    flw::uninstall_virtual();
+    res.absorb_panics("C19", "rotated file name longer than NAME_MAX");
+    if res.verdict == Verdict::Held {
+        // whatever the logger makes of the failing renames: no record whose own write succeeded
+        // may be lost, and the failures are reported
+        let mut ids: Vec<u64> = Vec::new();
+        if let Ok(rd) = std::fs::read_dir(&dir) {
+            let mut files: Vec<_> = rd.flatten().map(|e| e.path()).filter(|p| p.is_file()).collect();
+            files.sort();
+            for f in files {
+                for line in String::from_utf8_lossy(&std::fs::read(&f).unwrap_or_default()).lines() {
+                    if let Some((0, 0, s)) = flw::parse_msg_id(line) {
+                        ids.push(s);
+                    }
+                }
+            }
+        }
+        ids.sort_unstable();
+        let missing: Vec<u64> = (0..n).filter(|i| !ids.contains(i)).collect();
+        let dups = ids.windows(2).any(|w| w[0] == w[1]);
+        res.count("real_fault_runs", 1);
+        if !missing.is_empty() || dups {
+            res.violate(
+                "record-lost",
+                format!("C19/record-lost/real-fault/rotated-name-too-long/naming={}", cfg.names.naming.label()),
+                format!(
+                    "renaming the current file fails with ENAMETOOLONG at every rotation (base name of {base_len} bytes): records {missing:?} are missing{} although no write failed; ids found {ids:?}",
+                    if dups { " and some are duplicated" } else { "" }
+                ),
+            );
+        } else if reports == 0 {
+            res.violate(
+                "failure-not-reported",
+                "C19/failure-not-reported/real-fault/rotated-name-too-long",
+                "every rotation failed (ENAMETOOLONG) but nothing was written to the error channel",
+            );
+        }
+    }
+    res.nontrivial = true;
+    if ctx.case < 40 || res.verdict != Verdict::Held {
+        res.sample = Some(json!({"config": cfg.to_json(), "base_name_bytes": base_len}));
+    }
     res
 }
 
